@@ -159,6 +159,9 @@ pub struct Feat {
     pub edges: bool,
     /// unsupported AH values
     pub bad_ah: bool,
+    /// `print flags` / pushf images allowed while the program has TF set (not for sessions that
+    /// are compared with a reference variant whose TF stays clear)
+    pub flags_under_tf: bool,
 }
 
 impl Feat {
@@ -181,6 +184,7 @@ impl Feat {
             hlt: false,
             edges: false,
             bad_ah: false,
+            flags_under_tf: false,
         }
     }
     /// swarm: each feature on with probability pct
@@ -203,6 +207,7 @@ impl Feat {
             hlt: r.chance(pct / 2),
             edges: r.chance(pct),
             bad_ah: r.chance(pct / 5),
+            flags_under_tf: false,
         }
     }
 }
@@ -581,7 +586,7 @@ impl<'a> G<'a> {
 
     fn print_stmt(&mut self) {
         let edges = self.cfg.feat.edges;
-        let k = self.r.below(if self.tf_on { 4 } else { 5 });
+        let k = self.r.below(if self.tf_on && !self.cfg.feat.flags_under_tf { 4 } else { 5 });
         match k {
             0 => self.ins("print reg", "print"),
             1 => {
@@ -837,7 +842,7 @@ impl<'a> G<'a> {
                 self.ins(&format!("push {}", a), "stack");
                 self.ins(&format!("pop {}", b), "stack");
             }
-            1 if !self.tf_on => {
+            1 if !self.tf_on || self.cfg.feat.flags_under_tf => {
                 self.ins("pushf", "stack");
                 let b = self.wreg();
                 self.ins(&format!("pop {}", b), "stack");
@@ -1037,7 +1042,11 @@ impl<'a> G<'a> {
         for i in 0..n {
             let name = format!("m_{}", i);
             let np = self.r.urange(0, 2);
-            let params: Vec<String> = (0..np).map(|k| format!("a_{}", k)).collect();
+            // parameter names in a random order from a small pool, so that the same body text can
+            // belong to different parameter lists
+            let mut pool: Vec<String> = (0..3).map(|k| format!("a_{}", k)).collect();
+            self.r.shuffle(&mut pool);
+            let params: Vec<String> = pool.into_iter().take(np).collect();
             // body: 1-3 instructions using the parameters as source operands; sometimes a
             // print statement, a breakpoint or a console service inside the macro
             let ni = self.r.urange(1, 3);
